@@ -420,8 +420,9 @@ def py_style(so, **extra):
 class Speller:
     """renders abstract records as zone-file lines, choosing among equivalent spellings"""
 
-    def __init__(self, rng, origin, plain=False, exact=False):
+    def __init__(self, rng, origin, plain=False, exact=False, sloppy=False):
         self.exact = exact
+        self.sloppy = sloppy  # also omit TTLs that nothing implies (only for model/implementation comparison)
         self.rng = rng
         self.zone_origin = origin
         self.cur = origin
@@ -494,6 +495,8 @@ class Speller:
         # the TTL of the previous record (RFC 1035 5.1 / RFC 2308 4)
         inherited = self.ttl_default if self.ttl_default is not None else self.last_ttl
         omit_ttl = f.get("omit_ttl", (not self.plain) and inherited == ttl and rng.random() < 0.5)
+        if self.sloppy and rng.random() < 0.08:
+            omit_ttl = True
         cls = f.get("cls", rng.choice([b"IN", b"IN", b"in", b"CLASS1", None]) if not self.plain else b"IN")
         if omit_ttl:
             mid = [cls] if cls else []
@@ -538,9 +541,9 @@ class Speller:
         return self.rng.choice([b"$TTL", b"$ttl"]) + self.ws() + self.ttl_text(t) + b"\n"
 
 
-def zone_file(rng, origin, rel, nodes, plain=False, noise=0.0, exact=False, directives=True):
+def zone_file(rng, origin, rel, nodes, plain=False, noise=0.0, exact=False, directives=True, sloppy=False):
     """text of a zone file holding the records of the abstract zone (one spelling among many)"""
-    sp = Speller(rng, origin, plain, exact)
+    sp = Speller(rng, origin, plain, exact, sloppy)
     out = []
     if not plain and directives and rng.random() < 0.3:
         out.append(sp.set_origin(origin))
@@ -594,7 +597,7 @@ def with_block(rng, base, block):
     lines = base.split(b"\n")
     if lines and lines[-1] == b"":
         lines.pop()
-    k = rng.randint(1, len(lines))
+    k = rng.randint(1, len(lines)) if lines else 0
     return b"\n".join(lines[:k] + block + lines[k:]) + b"\n"
 
 
@@ -840,7 +843,8 @@ def cases(ctx):
         mutated = 0.32 <= r < 0.42
         # mutated files only use types whose rdata the model validates exactly
         origin, rel, nodes = gen_zone(rng, max_names=rng.choice([0, 1, 3, 6]), want_apex=rng.random() < 0.9, simple=mutated)
-        text = zone_file(rng, origin, rel, nodes, plain=rng.random() < 0.2, noise=rng.choice([0, 0.1, 0.3]), exact=mutated)
+        text = zone_file(rng, origin, rel, nodes, plain=rng.random() < 0.2, noise=rng.choice([0, 0.1, 0.3]), exact=mutated,
+                         sloppy=rng.random() < 0.3)
         give_origin = rng.random() < 0.85
         if not give_origin and not text.startswith(b"$ORIGIN"):
             text = b"$ORIGIN " + name_text(origin) + b"\n" + text
@@ -872,6 +876,24 @@ def cases(ctx):
                                 b" 300 IN A 10.9.8.7\n", b"$ORIGIN " + name_text(origin) + b"\n@ A 10.0.0.9\n"])
         yield "read", [1, origin if give_origin else None, int(rel), chk, text]
 
+    # --- read_rrsets: the same reader without directives, into a list of rrsets
+    for i in range(ctx.n(80, 1500)):
+        r = rng.random()
+        mutated = r < 0.15
+        origin, rel, nodes = gen_zone(rng, max_names=rng.choice([0, 1, 3]), want_apex=rng.random() < 0.7, simple=mutated)
+        text = zone_file(rng, origin, rel, nodes, plain=rng.random() < 0.2, noise=rng.choice([0, 0.2]), exact=mutated,
+                         directives=False, sloppy=rng.random() < 0.3)
+        if mutated:
+            text = mutate_text(rng, text)
+        elif r < 0.3:
+            inh, exp = outside_block(rng, origin, allow_origin_switch=False)
+            text = with_block(rng, text, inh) if text.count(b"(") == 0 else text
+        elif r < 0.4 and nodes:
+            n_abs, rdss = nodes[rng.randrange(len(nodes))]
+            text += name_text(n_abs) + b" 300 IN " + rng.choice([b"CNAME somewhere", b"A 192.0.2.7", b"NSEC @ A"]) + b"\n"
+        elif r < 0.45:
+            text += rng.choice([b"$TTL 300\n", b"$ORIGIN x.\n", b"sub 300 IN SOA a b 1 2 3 4 5\n", b"@ 300 CH A 1.2.3.4\n"])
+        yield "rrsets", [6, origin, int(rel), text]
     # --- oracle-only: rich record types, printed under lossless styles and read back
     for i in range(ctx.n(80, 800)):
         origin = gen_origin(rng)
@@ -1014,6 +1036,8 @@ def in_model(kind, case):
     if case[0] == 1:
         return (not unmodelled_token(case[4]) and all(c < 128 for c in case[4])
                 and not relative_origin_directive(case[4]))
+    if case[0] == 6:
+        return not unmodelled_token(case[3]) and all(c < 128 for c in case[3])
     return case[0] in (2, 3, 4)
 
 
@@ -1063,6 +1087,11 @@ def impl(case):
             finally:
                 os.unlink(path)
             res.append([int(z3 == z), int(canon(dump(z3)) == canon(dump(z))), f.getvalue()[:4000]])
+            # (c) the keyword API: Zone.to_text(sorted, relativize, nl, want_comments, want_origin)
+            t = z.to_text(sorted=st.sorted, relativize=st.relativize or z.relativize, nl="\n",
+                          want_comments=st.want_comments, want_origin=st.want_origin)
+            z4 = dns.zone.from_text(t, origin=oname(case[1]), relativize=bool(case[2]))
+            res.append([int(z4 == z), int(canon(dump(z4)) == canon(dump(z))), t.encode("latin-1", "replace")[:4000]])
             return res
         if op == 21:
             zs, codes = [], []
@@ -1076,6 +1105,10 @@ def impl(case):
             if codes != [0, 0]:
                 return [codes[0], codes[1], 0, 0]
             return [0, 0, int(zs[0] == zs[1]), int(canon(dump(zs[0])) == canon(dump(zs[1])))]
+        if op == 6:
+            rr = dns.zonefile.read_rrsets(bytes(case[3]).decode("latin-1"), rdclass=None, origin=oname(case[1]),
+                                          relativize=bool(case[2]))
+            return [[labels_of(r.name), [int(r.rdtype), int(r.covers), int(r.ttl), [rd_text(rd) for rd in r]]] for r in rr]
         if op == 25:
             main1, inc_origin, inc, main2, flat = case[3:8]
             d = tempfile.mkdtemp(prefix="c09inc")
